@@ -8,6 +8,7 @@ import sys
 
 from .. import core
 from .. import wsfamily as F
+from ..tlaparse import FrozenDict
 
 PID = "C04"
 
@@ -22,7 +23,9 @@ def configs(ctx):
                  invariants=("HashInvX",), properties=("NoClobber", "RekeyCarries", "UpdateNoOverwrite")),
         F.Config("rekey-empty-start", ["open_sp", "copy", "setkey", "assign", "init", "docset", "writefile", "remove"], 5 if q else 6, "mixed", limit=4000 if q else 200000,
                  invariants=("HashInvX",), properties=("NoClobber", "RekeyCarries")),
-        F.Config("rekey-typed-values", ["open_sp", "open_id", "copy", "setkey", "init", "docset", "readsp"], 4 if q else 5, "typed", init_jobs=1, limit=3000 if q else 150000,
+        # two jobs that differ only in the JSON type of one value (1 vs 1.0): collisions and roll-backs among ==-equal values
+        F.Config("rekey-typed-values", ["open_sp", "open_id", "copy", "setkey", "init", "docset", "readsp"], 4 if q else 5, "typed",
+                 init_jobs=[FrozenDict(a="i0", b="-"), FrozenDict(a="i1", b="-")], limit=3000 if q else 150000,
                  invariants=("HashInvX",), properties=("NoClobber", "RekeyCarries")),
         F.Config("move-clone", ["open_sp", "open_id", "move", "clone", "setkey", "docset", "writefile", "init", "remove"], 4 if q else 5, "mixed", projects=("P", "Q"),
                  init_jobs=2, limit=4000 if q else 150000, invariants=("HashInvX",), properties=("NoClobber", "MoveKeepsId", "CloneIndependent", "RekeyCarries")),
@@ -117,7 +120,7 @@ def assignment_scenarios(ctx):
         for k, new in enumerate(shapes):
             if old == new and type(old) is type(new):
                 continue
-            for route in ("assign", "update_statepoint", "setitem"):
+            for route in ("assign", "update_statepoint", "sp.update", "setitem"):
                 sp0, sp1 = {"t": "%d-%d-%s" % (i, k, route), "v": old}, {"t": "%d-%d-%s" % (i, k, route), "v": new}
                 job = p.open_job(sp0).init()
                 job.doc.d = 1
@@ -127,6 +130,8 @@ def assignment_scenarios(ctx):
                         job.statepoint = sp1
                     elif route == "update_statepoint":
                         job.update_statepoint({"v": new}, overwrite=True)
+                    elif route == "sp.update":
+                        job.sp.update({"v": new})
                     else:
                         job.sp["v"] = new
                     got = job.statepoint()
